@@ -25,7 +25,7 @@ RULE = ("hub: one line = history length N + a history of ops run by one goroutin
         "(all/one mailbox) and of harness listeners that fail after f calls, dispatches, deletes (known, unknown, duplicate ids), "
         "RemoveListener, listener Close with events buffered, writer steps, Sync, and a gate that parks the hub goroutine mid-broadcast so "
         "that closes/writer steps happen while ops are queued. Families: mixed, mixed+gate, queue-boundary (exactly full, never waiting), "
-        "slow listener (open finding), history longer than the queue. asm15: the hub of the assembled server (server.FullAssembly + Services.Start, child process) fed through the real extension events (ExtHost.Events.AfterMessageStored, i.e. through the asynchronous broker) with a burst of 50-400 events: an attached monitor gets each once in order and a late joiner exactly the retained history. ws: the real HTTP handlers (rest.SetupRoutes on web.Router behind an httptest server) and a real WebSocket client on /api/v1|v2/monitor/messages[/<mailbox>], i.e. the real WSReader/WSWriter: events dispatched before the join (history replay) and in a burst while the client is not reading, then read message by message — every WebSocket message must carry exactly one JSON document and the sequence must be the listener's entitlement. fed: msghub.New wired to an extension host; <events> stored events (and then a few deleted ones) are emitted on ExtHost.Events, i.e. travel through the asynchronous brokers into hub.Dispatch/hub.Delete; monitor 1 attached before the burst, optionally a monitor that fails after k calls, monitor 2 attached after everything settled; the expected streams are computed by the composed model Model/HubFed.v. distinct = distinct input line; non-trivial = at least one listener "
+        "slow listener (open finding), history longer than the queue. asm15: the hub of the assembled server (server.FullAssembly + Services.Start, child process) fed through the real extension events (ExtHost.Events.AfterMessageStored, i.e. through the asynchronous broker) with a burst of 50-400 events: an attached monitor gets each once in order and a late joiner exactly the retained history. ws: the real HTTP handlers (rest.SetupRoutes on web.Router behind an httptest server) and a real WebSocket client on /api/v1|v2/monitor/messages[/<mailbox>], i.e. the real WSReader/WSWriter: events dispatched before the join (history replay) and in a burst while the client is not reading, then read message by message — every WebSocket message must carry exactly one JSON document and the sequence must be the listener's entitlement. wsbad: requests on the four monitor routes that are not valid WebSocket upgrades (plain GET, foreign Origin, wrong version, HEAD, POST, missing key) followed by a burst of 150–3000 events with a healthy listener attached: the hub must come to rest and the listener hold everything. fed: msghub.New wired to an extension host; <events> stored events (and then a few deleted ones) are emitted on ExtHost.Events, i.e. travel through the asynchronous brokers into hub.Dispatch/hub.Delete; monitor 1 attached before the burst, optionally a monitor that fails after k calls, monitor 2 attached after everything settled; the expected streams are computed by the composed model Model/HubFed.v. distinct = distinct input line; non-trivial = at least one listener "
         "joined and one event dispatched.")
 TRUSTED = ["a closed listener's queue is read by nobody (the harness looks at what was buffered only at the end of the case)",
            "Go channels/select/sync.Once behave as modelled (FIFO bounded queue; a send on a full channel waits; select picks any ready branch)",
@@ -40,7 +40,7 @@ KNOWN_MUST_REPRODUCE = True
 
 
 def nontrivial(kind, ins, outs):
-    if kind in ("fed", "fedstop", "ws", "wslong"):
+    if kind in ("fed", "fedstop", "ws", "wslong", "wsbad"):
         return True
     if kind == "asm15":
         return True
